@@ -529,7 +529,8 @@ func propC19(c *Ctx) {
 				continue
 			}
 			for _, a := range call.Call.Args {
-				if lf, _ := loadedField(stripConv(a)); lf != nil && lf.Pkg() == login.Pkg.Pkg {
+				// (the secret may be kept as a string and converted where it is compared)
+				if lf, _ := loadedField(stripNum(a)); lf != nil && lf.Pkg() == login.Pkg.Pkg {
 					fPw = lf
 				}
 			}
@@ -562,6 +563,35 @@ func propC19(c *Ctx) {
 			continue
 		}
 		if kf, _ := loadedField(stripConv(lk.Index)); kf == nil || kf.Name() != "Method" {
+			continue
+		}
+		// a table built on the spot: map[string]http.HandlerFunc{"GET": h.loginPage, "POST": h.loginSubmit}[r.Method]
+		if mk, isMk := stripConv(lk.X).(*ssa.MakeMap); isMk {
+			for _, ref := range *mk.Referrers() {
+				mu, isMu := ref.(*ssa.MapUpdate)
+				if !isMu {
+					continue
+				}
+				key, isK := constString(mu.Key)
+				if !isK {
+					continue
+				}
+				var f *ssa.Function
+				switch x := stripConv(mu.Value).(type) {
+				case *ssa.MakeClosure:
+					f = x.Fn.(*ssa.Function)
+				case *ssa.Function:
+					f = x
+				}
+				if f == nil {
+					continue
+				}
+				for _, real := range unwrapBound(f) {
+					if real.Blocks != nil {
+						arms = append(arms, loginArm{NewRegion(real), real, key})
+					}
+				}
+			}
 			continue
 		}
 		u, isU := lk.X.(*ssa.UnOp)
@@ -607,7 +637,8 @@ func propC19(c *Ctx) {
 				_, isParam := fc.Call.Args[0].(*ssa.Parameter)
 				return k == "password" && isParam
 			}
-			if !((fromForm(a0) && isLoadOfField(a1, fPw)) || (fromForm(a1) && isLoadOfField(a0, fPw))) {
+			isPw := func(v ssa.Value) bool { return isLoadOfField(v, fPw) || isLoadOfField(stripNum(v), fPw) }
+			if !((fromForm(a0) && isPw(a1)) || (fromForm(a1) && isPw(a0))) {
 				continue
 			}
 			cmpSeen = true
